@@ -31,6 +31,10 @@ ASSUMPTIONS = [
 ]
 
 
+# generated-code-only properties are decided per corpus schema against the XML oracle: translation validation
+PROP_LEVEL = {"C17": "translation_validation", "C18": "translation_validation"}
+
+
 def load_known():
     if not os.path.exists(KNOWN):
         return {"findings": [], "fixed": []}
@@ -149,8 +153,9 @@ def check_property(prop, tier, seed=0, replay_path=None, only=None):
             line += " no-failing-input-found"
         vio_lines.append(line)
     wall = time.time() - t0
+    schemas = sorted({re.match(r"gen-(.+?)-c\+\+", r.c.unit.name).group(1) for r in results if re.match(r"gen-(.+?)-c\+\+", r.c.unit.name)})
     ev = dict(
-        property_id=prop, tier=tier, seed=seed, level="proof",
+        property_id=prop, tier=tier, seed=seed, level=PROP_LEVEL.get(prop, "proof"),
         coverage=dict(
             # a proof-level record claims only what was discharged; obligations that fail because of a listed known finding
             # (and the ones CBMC leaves undecided behind them) are excluded from the claim and counted separately
@@ -159,6 +164,7 @@ def check_property(prop, tier, seed=0, replay_path=None, only=None):
             bounded_obligations=n_bounded, bounded_discharged=n_bounded_ok,
             checker_cmd="goto-cc h.c; goto-instrument --dfcc main --enforce-contract <f> [--replace-call-with-contract <g>]* [--apply-loop-contracts]; cbmc %s [--unwind N --unwinding-assertions] (portfolio: minisat, kissat, z3, cvc5)" % " ".join(engine.CHECK_FLAGS),
             trusted_base=TRUSTED + [t for m in mods for t in getattr(m, "TRUSTED", [])],
+            programs=len(schemas), corpus_schemas=schemas, disagreements_checked=sum(len(r.c.post) for r in results if r.status == "ok"),
             contracts=len(results), contracts_ok=sum(1 for r in results if r.status == "ok"),
             functions_under_contract=functions,
             backends={b: sum(1 for r in results if r.backend == b) for b in {r.backend for r in results if r.backend}},
